@@ -292,7 +292,20 @@ static void prop_cycle_block(Tape &t, Ctx &c) {
         Eigen::JacobiSVD<Eigen::Matrix2d> svd(M); kblk = std::max(kblk, svd.singularValues()(0) / svd.singularValues()(1));
     }
     c.label(bucket(kblk, {2, 10, 100}, "block-cond"));
-    const double rcf = (fagg_region ? 32.0 : 1.0) * kblk * kblk;
+    // emin: P(:,c) = P_tent(:,c) - D^-1 A_f P_tent(:,c) omega_c can nearly cancel (omega_c D^-1 A_f 1 ~ 1 on a small, nearly
+    // isolated aggregate: the energy-minimal column tends to 0; exact cancellation is the rank-deficient class).  The entries of
+    // such a column, max |P(i,c)| = p << 1 = P_tent, carry the rounding error of O(1) quantities, i.e. a RELATIVE error u kblk / p,
+    // and P, R are computed separately; the cycle is homogeneous of degree 0 in the scaling of a column of P, so that relative
+    // error appears unchanged in B (seen: p = 0.006, asymmetry 140 x the bound).  The constants scale with (1/p)^2.
+    double pmin = 1;
+    if (cfg.coars == EMIN) amgcl_verif::access::for_level_objects(*amg, [&](const auto &l) {
+        if (!l.P) return;
+        std::vector<double> cm(l.P->ncols, 0.0);
+        for (size_t i = 0; i < l.P->nrows; ++i) for (ptrdiff_t j = l.P->ptr[i]; j < l.P->ptr[i + 1]; ++j) { double m = 0; for (int q = 0; q < 4; ++q) m = std::max(m, std::abs(l.P->val[j](q))); cm[l.P->col[j]] = std::max(cm[l.P->col[j]], m); }
+        for (double v : cm) if (v > 0) pmin = std::min(pmin, v);
+    });
+    if (pmin < 0.1) c.label("emin:cancelling-column");
+    const double rcf = (fagg_region ? 32.0 : 1.0) * kblk * kblk / (pmin * pmin);
 
     // ---- linearity
     {
